@@ -86,7 +86,7 @@ PSEUDO = ["hover", "first-child", "before", "active", "root"]
 PROPS = ["color", "margin", "width", "z-index", "font", "background", "--x", "--my-var", "transform", "grid-template-columns", "content", "line-height"]
 INT_TEXTS = ["0", "1", "2", "7", "10", "100", "255", "999", "1000", "65535", "65536", "99999", "100000", "999999", "1000000", "9999999", "16777215", "16777216", "16777217", "2147483647", "-1", "-2147483648", "+5", "123456", "1234567", "12345678", "-1234567", "-9999999", "-16777217", "+33554433", "99999999", "-123456789"]
 FLOAT_TEXTS = ["0.5", ".5", "1.5", "0.25", "3.14159", "0.1234567", "12.345678", "1e3", "1.5e-3", "2E2", "0.000001", "100.5", "-0.5", "+.75", "0.1", "0.333333", "99.9999", "1234.5678", "0.0", "-0.0"]
-RPX_TEXTS = ["0", "1", "2", "7.5", "10", "75", "100", "375", "750", "1.5", "0.5", ".5", "-10", "+20", "1e2", "33.3333", "12345", "0.01", "999999", "7", "3"]
+RPX_TEXTS = ["0", "1", "2", "7.5", "10", "75", "100", "375", "750", "1.5", "0.5", ".5", "-10", "+20", "1e2", "33.3333", "12345", "0.01", "999999", "7", "3", "1234567", "-9999999", "16777217", "30000000", "2147483647", "-2147483648", "1e9"]
 
 
 class Gen:
@@ -253,32 +253,52 @@ class Gen:
             return dimension(text, unit)
         return percentage(self.pick(["0", "50", "100", "33.3333", "-10", "12.5", "1e1"]))
 
-    def calc(self, depth):
-        toks = [func("calc")]
-        toks.append(self.numeric())
-        for _ in range(self.r.randrange(1, 3)):
-            op = self.pick(["+", "-", "*", "/"])
-            d = delim(op, ws=True, wsmean="must" if op in "+-" else "free")
-            toks.append(d)
-            if depth > 0 and self.chance(0.25):
-                sub = self.calc(depth - 1)
-                sub[0].ws = True
-                sub[0].wsmean = "must" if op in "+-" else "free"
-                toks.extend(sub)
-            elif self.chance(0.15):
-                toks.append(T("(", None, "(", ws=True, wsmean="must" if op in "+-" else "free"))
-                toks.append(self.numeric())
-                toks.append(delim("+", ws=True, wsmean="free"))  # inside plain parentheses the calc rule is not applied by the SUT; judged as free
-                n2 = self.numeric()
-                n2.ws = True
-                toks.append(n2)
-                toks.append(simple(")"))
-            else:
-                n = self.numeric()
-                n.ws = True
-                n.wsmean = "must" if op in "+-" else "free"
-                toks.append(n)
+    def calc(self, depth, name=None):
+        """A calc() expression; everything nested in it (parentheses, math functions, var() fallbacks) is
+        still calculation context: whitespace around + and - is meaningful at every depth."""
+        toks = [func(name or self.pick(["calc", "calc", "calc", "calc", "CALC", "Calc"]))]
+        toks.extend(self.calc_sum(depth, 2))
         toks.append(simple(")"))
+        return toks
+
+    def calc_operand(self, depth, nest):
+        r = self.r.random()
+        if depth > 0 and r < 0.2:
+            return self.calc(depth - 1)
+        if nest > 0 and r < 0.35:
+            return [T("(", None, "(")] + self.calc_sum(depth, nest - 1) + [simple(")")]
+        if nest > 0 and r < 0.45:
+            toks = [func(self.pick(["min", "max", "clamp"]))]
+            for j in range(self.r.randrange(1, 4)):
+                if j:
+                    toks.append(simple(",", ws=self.chance(0.3)))
+                sub = self.calc_sum(depth, nest - 1)
+                sub[0].ws = self.chance(0.5)
+                toks.extend(sub)
+            toks.append(simple(")"))
+            return toks
+        if r < 0.52:
+            toks = [func("var"), ident(self.pick(["--x", "--my-var"]))]
+            if nest > 0 and self.chance(0.4):
+                toks.append(simple(","))
+                sub = self.calc_sum(depth, nest - 1)
+                sub[0].ws = self.chance(0.5)
+                toks.extend(sub)
+            toks.append(simple(")"))
+            return toks
+        if r < 0.56:
+            return [ident(self.pick(["pi", "e", "infinity"]))]
+        return [self.numeric()]
+
+    def calc_sum(self, depth, nest):
+        toks = self.calc_operand(depth, nest)
+        for _ in range(self.r.randrange(0 if nest < 2 else 1, 3)):
+            op = self.pick(["+", "-", "*", "/"])
+            toks.append(delim(op, ws=True, wsmean="must" if op in "+-" else "free"))
+            nxt = self.calc_operand(depth, nest)
+            nxt[0].ws = True
+            nxt[0].wsmean = "must" if op in "+-" else "free"
+            toks.extend(nxt)
         return toks
 
     def value_tokens(self, depth=2):
@@ -438,14 +458,21 @@ class Gen:
         form = self.pick(["string", "string", "url-func", "url-token"])
         path = self.pick(["a.wxss", "./b/c.wxss", "../x y.wxss", "a*/b.css", "中/文.wxss", "a%20b.css", "q'x.css", "a\"b.css", "/abs/p.css", "a?b=1&c=2", "sp ace.css"])
         conds = []
-        if self.chance(0.3):
-            conds.append(("layer", self.pick(["base", "theme"])))
+        if self.chance(0.35):
+            # `layer(name)`, a dotted name (not a class selector), or the bare keyword (anonymous layer)
+            conds.append(("layer", self.pick(["base", "theme", "base", "a.b", "fw.ui.x", None])))
         if self.chance(0.3):
             conds.append(("supports", None))
         media = None
-        if self.chance(0.4):
-            media = self.pick(["screen", "paren", "screen-and-paren"])
-        return {"t": "import", "form": form, "path": path, "conds": conds, "media": media}
+        if self.chance(0.45):
+            media = self.pick(["screen", "paren", "screen-and-paren", "all", "all-and-paren", "not-all", "only-screen-and-paren", "list", "paren-and-paren"])
+        x = {"t": "import", "form": form, "path": path, "conds": conds, "media": media}
+        q = self.r.random()
+        if q < 0.06:
+            x["kw_spelling"] = "IMPORT"
+        elif q < 0.1:
+            x["kw_spelling"] = "Import"
+        return x
 
     def rules(self, depth, sel_depth, top=False, allow_host=True):
         out = []
@@ -465,8 +492,12 @@ class Gen:
             for _ in range(self.r.randrange(0, 3)):
                 rules.append(self.import_rule())
         rules.extend(self.rules(self.r.randrange(0, 5), self.r.randrange(0, 4), top=True))
-        if imports and self.chance(0.15):
-            rules.append(self.import_rule())  # an import after other rules: still rewritten, but flagged
+        if imports and self.chance(0.18):
+            # imports after other rules: still rewritten, but each one is flagged
+            for _ in range(self.r.randrange(1, 4)):
+                rules.append(self.import_rule())
+                if self.chance(0.2):
+                    rules.append({"t": "at", "name": "charset", "pre": [string("utf-8", '"', ctx="prelude", ws=True)], "body": None})
             rules.extend(self.rules(1, 1))
         return rules
 
